@@ -89,11 +89,15 @@ pub fn run_prompt(args: Vec<String>) {
                     }
                 };
 
+                // Keep the state of the accepted lines: a line the compiler
+                // rejects must not leave half-made definitions behind
+                let saved_symtab = symtab.clone();
+                let saved_constants = constants.clone();
                 let mut compiler = Compiler::new_with_state(symtab, constants);
                 if let Err(e) = compiler.compile(program) {
                     eprintln!("{}", e);
-                    symtab = compiler.symtab;
-                    constants = compiler.constants;
+                    symtab = saved_symtab;
+                    constants = saved_constants;
                     continue;
                 }
                 let bytecode = compiler.bytecode();
